@@ -18,16 +18,21 @@ import (
 // C04 — Simplify preserves behaviour.
 //
 // Streams (model ops):
-//   simp <sexpr>          real syntax.Simplify on a parsed program: returned bool + positions-erased
-//                         dump of the tree afterwards = Lean model `simplify` on the dump before.
-//   dqw <dollar> <hex>    Simplify on a hand-built Word{DblQuoted{Lit}} (the escape scanner alone).
+//
+//	simp <sexpr>          real syntax.Simplify on a parsed program: returned bool + positions-erased
+//	                      dump of the tree afterwards = Lean model `simplify` on the dump before.
+//	dqw <dollar> <hex>    Simplify on a hand-built Word{DblQuoted{Lit}} (the escape scanner alone).
+//
 // Spec op:
-//   specword <dollar> <hex>  value (expand.Literal) of the word after Simplify = Lean `dqValue` of the
-//                         original double-quoted literal: the property itself for literals.
+//
+//	specword <dollar> <hex>  value (expand.Literal) of the word after Simplify = Lean `dqValue` of the
+//	                      original double-quoted literal: the property itself for literals.
+//
 // Search leg (independent of Lean), per program:
-//   reports-change        returned bool <=> an independent reflective dump of the tree changed
-//   reparse               Parse(Print(Simplify t)) = Simplify t modulo positions (when t itself round-trips)
-//   behaviour             stdout+status of Print(t) vs Print(Simplify t) under interp and under bash
+//
+//	reports-change        returned bool <=> an independent reflective dump of the tree changed
+//	reparse               Parse(Print(Simplify t)) = Simplify t modulo positions (when t itself round-trips)
+//	behaviour             stdout+status of Print(t) vs Print(Simplify t) under interp and under bash
 func init() { register("C04", c04) }
 
 // ---------------------------------------------------------------------------------------------
@@ -606,7 +611,8 @@ type c04Prog struct {
 
 type c04Run struct {
 	witness          string
-	origSrc, simpSrc string
+	origSrc, simpSrc string // printed original, printed simplified
+	rawSrc           string // the source as written
 	interp, bash     bool
 	skip             string
 	targeted         bool
@@ -716,7 +722,7 @@ func c04Program(c *Ctx, pr c04Prog, lift bool) *c04Run {
 		}
 		c.Hist["reparse-ok"]++
 	}
-	run := &c04Run{witness: wit, origSrc: origPrinted, simpSrc: simpPrinted, targeted: pr.origin == "targeted"}
+	run := &c04Run{witness: wit, origSrc: origPrinted, simpSrc: simpPrinted, targeted: pr.origin == "targeted", rawSrc: pr.src}
 	if s := excl.bashSkip(); s != "" {
 		run.skip = s
 		if !lift && (s == "unsafe" || s == "nondet" || s == "subshell-var") {
@@ -774,11 +780,17 @@ func c04Behaviour(c *Ctx, run *c04Run, known bool) c04RunRes {
 			// confirm (de-flake): the original must be deterministic and the difference reproducible
 			a2 := runInterp(c, syntax.LangBash, run.origSrc)
 			b2 := runInterp(c, syntax.LangBash, run.simpSrc)
-			if !a2.TimedOut && !b2.TimedOut && c04Same(a, a2) && c04Same(b, b2) {
+			if raw := runInterp(c, syntax.LangBash, run.rawSrc); !raw.TimedOut && !c04Same(raw, a) {
+				// printing alone already changes the behaviour of the original (a printer matter, e.g.
+				// "${s:x - ${b}}" is printed "${s:x-${b}}", which bash reads as x--2 when b=-2): not
+				// attributable to Simplify
+				res.tags = append(res.tags, "run:printer-diverges")
+			} else if !a2.TimedOut && !b2.TimedOut && c04Same(a, a2) && c04Same(b, b2) {
 				res.what = fmt.Sprintf("interp: original %s, simplified %s; simplified program %q", c04Show(a), c04Show(b), run.simpSrc)
 				return res
+			} else {
+				res.tags = append(res.tags, "run:flaky")
 			}
-			res.tags = append(res.tags, "run:flaky")
 			if os.Getenv("C04_DEBUG") != "" {
 				fmt.Fprintf(os.Stderr, "FLAKY interp %q\n  %s\n  %s\n  %s\n  %s\n", run.origSrc, c04Show(a), c04Show(a2), c04Show(b), c04Show(b2))
 			}
@@ -794,11 +806,14 @@ func c04Behaviour(c *Ctx, run *c04Run, known bool) c04RunRes {
 		if !c04Same(a, b) {
 			a2 := runShell(c, "bash", run.origSrc)
 			b2 := runShell(c, "bash", run.simpSrc)
-			if !a2.TimedOut && !b2.TimedOut && c04Same(a, a2) && c04Same(b, b2) {
+			if raw := runShell(c, "bash", run.rawSrc); !raw.TimedOut && !c04Same(raw, a) {
+				res.tags = append(res.tags, "run:printer-diverges")
+			} else if !a2.TimedOut && !b2.TimedOut && c04Same(a, a2) && c04Same(b, b2) {
 				res.what = fmt.Sprintf("bash: original %s, simplified %s; simplified program %q", c04Show(a), c04Show(b), run.simpSrc)
 				return res
+			} else {
+				res.tags = append(res.tags, "run:flaky")
 			}
-			res.tags = append(res.tags, "run:flaky")
 		}
 	} else if run.bash {
 		res.tags = append(res.tags, "run:bash-skip:"+run.skip)
